@@ -79,9 +79,14 @@ impl ParseTracer for RecTracer {
 #[derive(Clone, Copy)]
 pub struct YieldTracer;
 
-fn do_yield() {
-    if let Some(f) = YIELD_FN.get() {
-        f()
+/// set by the schedule explorer around each exhaustive run (user functions yield only inside it)
+pub static IN_SCHEDULER: std::sync::atomic::AtomicBool = std::sync::atomic::AtomicBool::new(false);
+
+pub fn do_yield() {
+    if IN_SCHEDULER.load(std::sync::atomic::Ordering::Relaxed) {
+        if let Some(f) = YIELD_FN.get() {
+            f()
+        }
     }
 }
 
